@@ -447,6 +447,7 @@ def _validate(ctx, ck, traces):
     rej = [x for x in r.records if x.get("k") == "rejected"]
     if len(rej) != 1 or rej[0]["n"] != len(traces):
         raise MachineryError("trace run gave no verdict: %s" % r.raw_tail[-5:])
+    _validate.matched = {i: m for i, m in enumerate(rej[0]["matched"]) if m >= 0}
     return sorted(i - 1 for i in rej[0]["ids"])
 
 
